@@ -1891,6 +1891,11 @@ func (bc *Blockchain) AddBlock(block *block.Block) error {
 				bc.log.Warn(fmt.Sprintf("transaction %s failed to verify: %s", tx.Hash().StringLE(), err))
 			}
 		}
+		// A transaction with Conflicts attribute evicts its victims from the pool instead
+		// of failing, but conflicting transactions can't share a block.
+		if bc.config.VerifyTransactions && mp.Count() != len(block.Transactions) {
+			return fmt.Errorf("invalid block: %w: transactions of the block conflict with each other", ErrHasConflicts)
+		}
 	}
 	return bc.storeBlock(block, mp)
 }
